@@ -80,8 +80,13 @@ const NInputs = 3
 
 // Circuit returns the circuit: P=[P0], S=[S0,S1,OUT...]; every produced value is exposed by
 // AssertIsEqual(value, OUT_i) right after the step that produced it.
+// NCopies: the circuit takes three more secret inputs C0,C1,C2 (after the OUT inputs), assigned
+// the same values as P0,S0,S1, and asserts at the very end that every input still equals its
+// copy: an operation must not change its operands (except MulAcc's documented accumulator).
+const NCopies = 3
+
 func (p *Prog) Circuit(field *big.Int) *circ.C {
-	return circ.New(1, 2+p.NOut(), func(api frontend.API, pub, sec []frontend.Variable) error {
+	return circ.New(1, 2+p.NOut()+NCopies, func(api frontend.API, pub, sec []frontend.Variable) error {
 		inputs := []frontend.Variable{pub[0], sec[0], sec[1]}
 		var results []frontend.Variable
 		o := 2
@@ -106,6 +111,12 @@ func (p *Prog) Circuit(field *big.Int) *circ.C {
 				api.AssertIsEqual(v, sec[o])
 				o++
 				results = append(results, v)
+			}
+		}
+		used := p.UsedInputs()
+		for i := 0; i < NInputs; i++ {
+			if used[i] && !p.consumedInput(i) {
+				api.AssertIsEqual(inputs[i], sec[2+p.NOut()+i])
 			}
 		}
 		return nil
@@ -138,6 +149,16 @@ func (p *Prog) Ref(field *big.Int, in [NInputs]*big.Int) (outs []*big.Int, free 
 		}
 	}
 	return results, free, true
+}
+
+// consumedInput: input i was passed as MulAcc's accumulator (may be mutated, documented).
+func (p *Prog) consumedInput(i int) bool {
+	for _, s := range p.Steps {
+		if s.Op.Name == "MulAcc" && s.Args[0].Kind == 'i' && s.Args[0].Idx == i {
+			return true
+		}
+	}
+	return false
 }
 
 // UsedInputs reports which of P0,S0,S1 occur.
